@@ -150,8 +150,23 @@ def r3_multi_borrow(ctx):
     user = [u for u in F.unsafe_blocks if u["source"] == "UserProvided"]
     in_state = [u for u in user if u["span"]["file"].startswith("src/state/")]
     owners = sorted({u["owner"] for u in in_state})
-    ok_owner = all(o.endswith("as mahf::state::registry::multi::MultiStateTuple>::try_get_mut") for o in owners)
-    ctx.check(ok_owner, "C02.R3", "unsafe-inventory", "state-module", "user-written unsafe in the state module outside the multi-borrow: %s" % owners, detail=str(owners))
+    is_impl = lambda o: o.endswith("as mahf::state::registry::multi::MultiStateTuple>::try_get_mut")
+    # a private free function of the multi-borrow module that only the multi-borrow implementations (or such helpers) call is part
+    # of the multi-borrow: it is evaluated inlined below, under the same obligations
+    MULTI = "mahf::state::registry::multi::"
+    helpers = {o for o in owners if not is_impl(o) and o.startswith(MULTI) and o[len(MULTI):][:1].islower()}
+    changed = True
+    while changed:
+        changed = False
+        for h in sorted(helpers):
+            users = {f.key for f, _b, _t in F.callers_of(lambda c, h=h: c.get("key") == h)} | {f.key for f, _b, _c in F.fn_refs(lambda c, h=h: c.get("key") == h)}
+            users = {F.fn(u).parent if F.fn(u).kind == "Closure" and F.fn(u).parent else u for u in users}
+            if not users or not all(is_impl(u) or u in helpers for u in users):
+                helpers.discard(h)
+                changed = True
+    outside = [o for o in owners if not is_impl(o) and o not in helpers]
+    owners = [o for o in owners if is_impl(o)]
+    ctx.check(not outside, "C02.R3", "unsafe-inventory", "state-module", "user-written unsafe in the state module outside the multi-borrow: %s" % outside, detail=str(owners + sorted(helpers)))
     ctx.floor("C02.R3", "multi-borrow implementations (arities)", len(owners), 7)
     for u in user:
         if u not in in_state:
@@ -175,14 +190,14 @@ def r3_multi_borrow(ctx):
             def oracle(interp, env, f, args, t, bb, path, cls=cls, missing=None):
                 k = f.get("key", "")
                 if k == "better_any::Tid::id":
-                    g = (f.get("gargs") or ["?"])[0]
+                    g = (f.get("cgargs") or f.get("gargs") or ["?"])[0]
                     return Sym("id:%s" % cls.get(g, g))
                 if k == R + "get_mut":
-                    g = (f.get("gargs") or ["?"])[0]
+                    g = (f.get("cgargs") or f.get("gargs") or ["?"])[0]
                     return some(Sym("mut:" + g))
                 return TOP
 
-            inl = lambda k: k.endswith("MultiStateTuple>::distinct") or k.startswith("mahf::state::registry::error::")
+            inl = lambda k: k.endswith("MultiStateTuple>::distinct") or k.startswith("mahf::state::registry::error::") or (k.startswith(MULTI) and k[len(MULTI):][:1].islower())
             ps = cm_install(Interp(dist.body, chain(oracle, coll_oracle, std_oracle), [], facts=F, inline=inl)).run()
             rets = {p.ret for p in ps if p.end == "return"}
             if rets != {all_distinct} or any(p.end != "return" for p in ps):
@@ -209,9 +224,9 @@ def r3_multi_borrow(ctx):
         def oracle2(interp, env, f, args, t, bb, path, tparams=tparams):
             k = f.get("key", "")
             if k == "better_any::Tid::id":
-                return Sym("id:%s" % (f.get("gargs") or ["?"])[0])
+                return Sym("id:%s" % (f.get("cgargs") or f.get("gargs") or ["?"])[0])
             if k == R + "get_mut":
-                g = (f.get("gargs") or ["?"])[0]
+                g = (f.get("cgargs") or f.get("gargs") or ["?"])[0]
                 return NONE if g == tparams[-1] else some(Sym("mut:" + g))
             return TOP
         ps = cm_install(Interp(tg.body, chain(oracle2, coll_oracle, std_oracle), [Sym("registry")], facts=F, inline=inl)).run()
